@@ -14,4 +14,4 @@ root = sys.argv[1] if len(sys.argv) > 1 else "/repo"
 tab = reference_table(Program.from_repo(root))
 with open("/verif/wverif/reference_names.json", "w") as fh:
     json.dump(tab, fh, indent=0, sort_keys=True)
-print("functions:", len(tab), "keys:", sum(len(v["keys"]) for k, v in tab.items() if not k.startswith("__")))
+print("functions:", len([k for k in tab if not k.startswith("__")]), "keys:", sum(len(v["keys"]) for k, v in tab.items() if not k.startswith("__")), "shapes:", sum(len(v) for v in tab["__shapes__"].values()))
